@@ -165,9 +165,9 @@ func TestCheck(t *testing.T) {
 	r.SetExhaustive()
 	engines := []evid.Engine{tableEngine()}
 	engines = append(engines, e2eEngines()...)
-	engines = append(engines, udpsrv.Engine(r, []string{"twolocal-nr"}, 4, 100))
+	engines = append(engines, udpsrv.Engine(r, []string{"twolocal-nr"}, 4, 100), pairEngine(r))
 	r.Main(evid.Meta{
-		Rule:        "table: every No-Response value 0-63 and a grid of larger values (each high bit alone and combined with the meaningful subsets, 2^32-1, ...) x all 256 codes x 4 request shapes (No-Response alone, behind lower-numbered options, in front of higher-numbered ones such as Request-Tag 292 and an unknown elective option, both) through IsNoResponseCode and ResponseWriter.SetResponse against the RFC 7967 class rule, for values 0-63 also with a writer created from a pooled request's own options and a handler that changes the request (query added, Accept set, a higher option added, path removed or replaced) before it sets the response; non-trivial = value != 0 and code class 2.xx-5.xx (distinct by construction). e2e: generated (value, code, CON/NON, transport, optional higher-numbered elective options behind No-Response, a quarter of the datagrams delivered twice) requests to a library endpoint on the in-memory network whose handler is the harness's, the endpoint's built-in one (no handler configured: 4.04) or an empty router's default, oracle on the wire log; non-trivial = value != 0 and a response code, distinct by (transport, type, value, code)",
+		Rule:        "table: every No-Response value 0-63 and a grid of larger values (each high bit alone and combined with the meaningful subsets, 2^32-1, ...) x all 256 codes x 4 request shapes (No-Response alone, behind lower-numbered options, in front of higher-numbered ones such as Request-Tag 292 and an unknown elective option, both) through IsNoResponseCode and ResponseWriter.SetResponse against the RFC 7967 class rule, for values 0-63 also with a writer created from a pooled request's own options and a handler that changes the request (query added, Accept set, a higher option added, path removed or replaced) before it sets the response; non-trivial = value != 0 and code class 2.xx-5.xx (distinct by construction). e2e: generated (value, code, CON/NON, transport, optional higher-numbered elective options behind No-Response, a quarter of the datagrams delivered twice) requests to a library endpoint on the in-memory network whose handler is the harness's, the endpoint's built-in one (no handler configured: 4.04) or an empty router's default, oracle on the wire log; non-trivial = value != 0 and a response code, distinct by (transport, type, value, code). blockwise: No-Response together with block-wise bodies - two library endpoints (pairsim) on a fault-free in-memory network, SZX pairs 0-6, 1-3 POST/PUT/GET/DELETE exchanges with request and response bodies around the block size and a No-Response value; the handler answers 2.04/2.05, so the caller must get the complete response exactly when bit 2 is clear and no successful response when it is set, and the request body reaches the handler once and whole either way; non-trivial = value != 0 and a multi-block body",
 		Assumptions: []string{"RFC 7967 section 2.1 defines only bits 2, 8 and 16; all other bits suppress nothing"},
 		Floor:       1000,
 	}, engines...)
